@@ -358,7 +358,7 @@ func init() {
 			"interface calls are resolved by class hierarchy for blocking/ordering facts, but only single-instance lock classes (frozen table) are reasoned about through them; per-object locks only through statically resolved calls",
 			"Darwin/Windows-only files are outside the analysed build configuration",
 		},
-		Rules: []RuleFunc{c14Balance, c14NoBlock, c14Pile, c14Order},
+		Rules: []RuleFunc{c14Balance, c14NoBlock, c14Pile, c14Order, c14Channels},
 	})
 }
 
